@@ -33,7 +33,10 @@ Chunk(c) == CASE c = "SP" -> " " [] c = "US" -> "_" [] c = "L1" -> "a" [] OTHER 
 RECURSIVE Cat(_)
 Cat(s) == IF s = <<>> THEN "" ELSE Chunk(Head(s)) \o Cat(Tail(s))
 
-RenderEv(e) == IF Cat(e.ty) = "transfer" THEN <<"transfer", <<>>>>
+(* events of native modules are recorded (and compared) by type only: their position is fixed by C03 / C04, their
+   attributes belong to no listed property *)
+NativeTypes == {"transfer", "delegate", "unbond", "redelegate", "withdraw_delegator_reward", "set_withdraw_address"}
+RenderEv(e) == IF Cat(e.ty) \in NativeTypes THEN <<Cat(e.ty), <<>>>>
                ELSE << Cat(e.ty), [i \in 1..Len(e.attrs) |-> << Cat(e.attrs[i][1]), e.attrs[i][2] >>] >>
 RenderEvs(evs) == [i \in 1..Len(evs) |-> RenderEv(evs[i])]
 
